@@ -484,6 +484,27 @@ func streamParse(o *Out, r *rand.Rand, n int, thorough bool) {
 			o.Fail(Failure{Oracle: "string-literal", Key: "literal-raw-string", Input: raw, Detail: fmt.Sprintf("expected %q, got %q", raw, v)})
 		}
 	}
+	// a well-formed numeric literal written directly against a binary operator reads as it does with blanks around the
+	// operator: where a literal ends depends on its base only (the hex digit e is no exponent marker)
+	for _, l := range []string{"0xe", "0xfe", "0x1e", "0xE", "0XAE", "0x1F", "0xabcdef", "0b1", "0b10", "7", "10", "1e3", "1E3", "1.5", "1.5e2", "2e-3", "0"} {
+		for _, op := range []string{"+", "-", "*", "/", "%", "<", ">", "&", "|", "==", "!=", "<=", ">=", "&&", "||", "<<", ">>"} {
+			for _, r2 := range []string{"1", "0x1", "2e1", "0b1", "x", "(1)", "0xe"} {
+				tight, spaced := "a = "+l+op+r2, "a = "+l+" "+op+" "+r2
+				ts, terr := parser.ParseSrc(tight)
+				ss, serr := parser.ParseSrc(spaced)
+				o.Sum.Evaluations++
+				o.Sum.Hist["literal:against-operator"]++
+				if serr != nil {
+					continue // not a form of the language (nothing to compare with)
+				}
+				if terr != nil {
+					o.Fail(Failure{Oracle: "literal-boundary", Key: "literal-boundary:" + l, Input: tight, Detail: fmt.Sprintf("%q parses, %q does not: %v", spaced, tight, terr)})
+				} else if a, b := astser.ProgNoParens(ts), astser.ProgNoParens(ss); a != b {
+					o.Fail(Failure{Oracle: "literal-boundary", Key: "literal-boundary:" + l, Input: tight, Detail: fmt.Sprintf("%q reads as %s, %q as %s", tight, a, spaced, b)})
+				}
+			}
+		}
+	}
 }
 
 func hexOf(s string) string {
